@@ -277,4 +277,112 @@ theorem C03_routes (p : Proc N) (prog : List (Instr N)) (tbl : List (Util N)) (s
     (hwf : wfProc p = true) (h : Diagram p prog tbl stalled) : (Spec.C03 (ctx p prog tbl stalled)).ok = true :=
   (C03_ok_iff _).2 (C03_routes' p prog tbl stalled hwf h)
 
+/-! ## Non-vacuity
+
+**Fork/join.** Input port `0` (width 2, read lock, capabilities `7` and `8`) forks into the internal units `1`
+(capability `7`) and `2` (capability `8`), which join in the output port `3` (width 1, write lock). Four
+instructions: `0: r11 := f(r10)` (cap 7), `1: r13 := f(r12)` (cap 8), `2: r11 := f(r11, r13)` (cap 7, *self-dependent*:
+reads and writes `r11`, and depends on both older instructions), `3: r14 := f(r11)` (cap 8). The processor is
+well-formed; the run returns the 10-cycle diagram below, in which instruction `1` is structurally stalled (`S`) at
+the join in cycle 2 (the older instruction `0` takes the output port), instructions `2` and `3` wait data-stalled
+(`D`) in the input port, and every route reads input port → branch → output port. -/
+namespace C03Example
+
+def u0 : UnitM Nat := ⟨0, 2, [7, 8], true, false, []⟩
+def u1 : UnitM Nat := ⟨1, 1, [7], false, false, []⟩
+def u2 : UnitM Nat := ⟨2, 1, [8], false, false, []⟩
+def u3 : UnitM Nat := ⟨3, 1, [7, 8], false, true, []⟩
+def proc : Proc Nat :=
+  { inPorts := [u0], outPorts := [⟨u3, [1, 2]⟩], inOut := [], internal := [⟨u1, [0]⟩, ⟨u2, [0]⟩] }
+def prog : List (Instr Nat) := [⟨[10], 11, 7⟩, ⟨[12], 13, 8⟩, ⟨[11, 13], 11, 7⟩, ⟨[11], 14, 8⟩]
+
+example : wfProc proc = true := by decide
+
+/-- the diagram `simulate` returns (rows = cycles; each row lists the units `3, 1, 2, 0` with their hosted
+`⟨instruction, label⟩`) -/
+def table : List (Util Nat) :=
+  [[(3, []), (1, []), (2, []), (0, [⟨0, .U⟩, ⟨1, .U⟩])],
+   [(3, []), (1, [⟨0, .U⟩]), (2, [⟨1, .U⟩]), (0, [⟨2, .D⟩, ⟨3, .D⟩])],
+   [(3, [⟨0, .U⟩]), (1, []), (2, [⟨1, .S⟩]), (0, [⟨2, .D⟩, ⟨3, .D⟩])],
+   [(3, [⟨1, .U⟩]), (1, []), (2, []), (0, [⟨2, .D⟩, ⟨3, .D⟩])],
+   [(3, []), (1, []), (2, []), (0, [⟨2, .U⟩, ⟨3, .D⟩])],
+   [(3, []), (1, [⟨2, .U⟩]), (2, []), (0, [⟨3, .D⟩])],
+   [(3, [⟨2, .U⟩]), (1, []), (2, []), (0, [⟨3, .D⟩])],
+   [(3, []), (1, []), (2, []), (0, [⟨3, .U⟩])],
+   [(3, []), (1, []), (2, [⟨3, .U⟩]), (0, [])],
+   [(3, [⟨3, .U⟩]), (1, []), (2, []), (0, [])]]
+
+example : (match simulate proc prog with
+    | .done tbl => tbl == table
+    | _ => false) = true := by decide
+
+/-- the routes the checker reads off the diagram: `(cycle, unit, label)` per instruction -/
+def routes (tbl : List (Util Nat)) : List (List (Nat × Nat × Stall)) :=
+  (List.range 4).map (fun i => ((ctx proc prog tbl false).positions i).map
+    (fun (x : Nat × UnitM Nat × Stall) => (x.1, x.2.1.name, x.2.2)))
+
+example : routes table =
+    [[(0, 0, .U), (1, 1, .U), (2, 3, .U)],
+     [(0, 0, .U), (1, 2, .U), (2, 2, .S), (3, 3, .U)],
+     [(1, 0, .D), (2, 0, .D), (3, 0, .D), (4, 0, .U), (5, 1, .U), (6, 3, .U)],
+     [(1, 0, .D), (2, 0, .D), (3, 0, .D), (4, 0, .D), (5, 0, .D), (6, 0, .D), (7, 0, .U), (8, 2, .U), (9, 3, .U)]] := by
+  decide
+
+/-- the checker accepts the diagram (evaluated) … -/
+example : (Spec.C03 (ctx proc prog table false)).ok = true := by decide
+
+def isDone : Outcome Nat → Bool
+  | .done _ => true
+  | _ => false
+
+/-- … and the hypotheses of `C03_routes` are satisfiable: there is a diagram, and the theorem applies to it -/
+example : ∃ tbl, Diagram proc prog tbl false ∧ (Spec.C03 (ctx proc prog tbl false)).ok = true := by
+  have hd : isDone (simulate proc prog) = true := by decide
+  cases h : simulate proc prog with
+  | done tbl => exact ⟨tbl, Or.inl ⟨rfl, h⟩, C03_routes proc prog tbl false (by decide) (Or.inl ⟨rfl, h⟩)⟩
+  | stall tbl => rw [h] at hd; cases hd
+  | fault f => rw [h] at hd; cases hd
+
+end C03Example
+
+/-! **A stall diagram with instructions in flight.** Chain `0` (width 2, read lock) → `1` (write lock) → `2` (output,
+capability `7` only). Instruction `0` has capability `9`, which the output port does not support: it stays in unit
+`1` for ever (`U, S, …`); instruction `1` behind it is structurally stalled in the input port, instruction `2` reads
+the register instruction `1` never gets to write: its stay is `D, D` and reaches the frozen last cycle (the open end
+of clause 7). `simulate` raises the stall error with the 3-cycle diagram below; the theorem applies with
+`stalled = true`. -/
+namespace C03StallExample
+
+def u0 : UnitM Nat := ⟨0, 2, [7, 9], true, false, []⟩
+def u1 : UnitM Nat := ⟨1, 1, [7, 9], false, true, []⟩
+def u2 : UnitM Nat := ⟨2, 1, [7], false, false, []⟩
+def proc : Proc Nat := { inPorts := [u0], outPorts := [⟨u2, [1]⟩], inOut := [], internal := [⟨u1, [0]⟩] }
+def prog : List (Instr Nat) := [⟨[10], 11, 9⟩, ⟨[12], 13, 7⟩, ⟨[13], 14, 7⟩]
+
+example : wfProc proc = true := by decide
+
+def table : List (Util Nat) :=
+  [[(2, []), (1, []), (0, [⟨0, .U⟩, ⟨1, .U⟩])],
+   [(2, []), (1, [⟨0, .U⟩]), (0, [⟨1, .S⟩, ⟨2, .D⟩])],
+   [(2, []), (1, [⟨0, .S⟩]), (0, [⟨1, .S⟩, ⟨2, .D⟩])]]
+
+example : (match simulate proc prog with
+    | .stall tbl => tbl == table
+    | _ => false) = true := by decide
+
+example : (Spec.C03 (ctx proc prog table true)).ok = true := by decide
+
+def isStall : Outcome Nat → Bool
+  | .stall _ => true
+  | _ => false
+
+example : ∃ tbl, Diagram proc prog tbl true ∧ (Spec.C03 (ctx proc prog tbl true)).ok = true := by
+  have hd : isStall (simulate proc prog) = true := by decide
+  cases h : simulate proc prog with
+  | done tbl => rw [h] at hd; cases hd
+  | stall tbl => exact ⟨tbl, Or.inr ⟨rfl, h⟩, C03_routes proc prog tbl true (by decide) (Or.inr ⟨rfl, h⟩)⟩
+  | fault f => rw [h] at hd; cases hd
+
+end C03StallExample
+
 end ProcSim
